@@ -808,6 +808,8 @@ class Rewriter:
             b = b[:m.start()] + 'self.dedup_by(hs, ds) /* R35: the relation `same` is %s */' % want + b[m.end():]
             self.fired('R35:closure-is-the-relation')
         b = self.sub('R22:slice-cloned-iter', r'\bother\.iter\(\)\.cloned\(\)', 'slice_cloned_iter(hs, other)', b)
+        b = self.sub('R22:cloned-items', r'\biter\.into_iter\(\)\.cloned\(\)', 'iter.into_iter()', b)      # a copy of a token is the token
+        b = self.sub('R22:slice-hash', r'\bHash::hash\(&\*\*self, (\w+)\)', r'slice_hash(hs, self.as_slice(), \1, hl)', b)
         b = self.sub('R22:slice-cloned-iter', r'\bself\.iter\(\)\.cloned\(\)', 'slice_cloned_iter(hs, self.as_slice())', b)
         b = self.sub('R22:model-type', r'(?<![\w:])Vec::new_in\(', 'VecM::new_in(hs, ', b)
         b = self.sub('R22:model-type', r'(?<![\w:])RawVec::new_in\(', 'RawVecM::new_in(hs, ', b)
